@@ -1,8 +1,14 @@
 #!/bin/bash
-# MANIFEST.setup_cmd: build the whole Lean library, every model driver and pre-generate the tables. Offline.
-set -e
+# MANIFEST.setup_cmd: pre-generate the tables from /repo, build the whole Lean library and every model driver. Offline.
+# Setup never fails because a proof obligation does not check: that is for the property's own check to report
+# (it rebuilds its obligations itself and turns a broken one into a failing-input search / VIOLATION line).
 cd "$(dirname "$0")/.."
 export PYTHONWARNINGS=ignore
-/venv/bin/python harness/gen_tables.py
+/venv/bin/python harness/gen_tables.py || echo "setup: table generation reported a problem (the checks regenerate their own tables)"
 cd lean
-lake build
+if ! lake build; then
+  echo "setup: 'lake build' reported failures (see above); building the model drivers and each property module separately"
+  for t in $(grep -o 'drv_c[0-9][0-9]' lakefile.toml | sort -u); do lake build $t >/dev/null 2>&1 || echo "setup: $t does not build"; done
+  for f in ForML/Props/C*.lean; do m=ForML.Props.$(basename $f .lean); lake build $m >/dev/null 2>&1 || echo "setup: $m does not build"; done
+fi
+exit 0
